@@ -273,3 +273,75 @@ def run(ctx):
         ctx.instance("C23.6", "%s: null in either operand -> null: %s" % (fid.split("::")[-1], "yes" if not bad else bad[:4]))
         ctx.oblige(not bad, "C23.6", "null-propagation:%s" % fid.split("::")[-1], "%s does not return null for a null operand: %s" % (fid.split("::")[-1], "; ".join(bad[:4])), ctx.body(fid).file)
     ctx.floor("C23.6", "operator arms + helper functions checked", n6, 17)
+
+    # ---- clause 7: numeric comparison is exact --------------------------------------------------------
+    # `<, <=, >, >=` must agree with `=` and with each other, and `=` must be an equivalence, also between integers and floats.  An i64
+    # above 2^53 is not representable as f64, so any comparison that converts an integer operand to f64 first (`as f64`, value_as_f64)
+    # merges neighbours: `9007199254740993 > 9007199254740992` is false while `>=` and `<=` are true, and
+    # `9007199254740993 = 9007199254740992.0 = 9007199254740992` breaks transitivity.  Decided per comparison entry point and per
+    # integer-involving pair of kinds: the decision path (followed into the comparison helpers) contains no int->float conversion.
+    ctx.rule("C23.7", "range comparison, ordering and equality never convert an integer operand to f64 on the (Int, Int), (Int, Float) and (Float, Int) paths")
+    FAMILY = ("nervusdb_query::evaluator::evaluator_compare::", "nervusdb_query::evaluator::evaluator_equality::")
+    LOSSY_CALLS = ("nervusdb_query::evaluator::evaluator_numeric::value_as_f64",)
+
+    def int_to_float_casts(fb, blocks):
+        out = []
+        for bi in blocks:
+            for st in fb.blocks[bi]["s"]:
+                if st[0] == "a" and st[2][0] == "cast" and st[2][1] == "IntToFloat" and st[2][3] in ("i64", "i32", "i128", "u64"):
+                    out.append("%s:%d" % (fb.file, st[3]))
+        return out
+
+    def walk(fid, la, ra, depth=3):
+        """-> (verdict, why): verdict in exact | lossy | undecided"""
+        fb = F.bodies.get(fid)
+        if fb is None or depth < 0:
+            return "undecided", "no body for %s" % fid
+        tl = truth.tuple_local(fb, 0)
+        slots = {(1, None): "l", (2, None): "r"}
+        if tl is not None:
+            slots[(tl, 0)] = "l"
+            slots[(tl, 1)] = "r"
+        tr = []
+        try:
+            got = truth.eval_match(fb, 0, slots, {"l": la, "r": ra}, full_discr, stop_at_call=True, trace=tr)
+        except truth.Undecided as e:
+            got = ("inline", str(e))
+        casts = int_to_float_casts(fb, tr)
+        if casts:
+            return "lossy", "`as f64` of an integer at %s" % casts[0]
+        if isinstance(got, tuple) and got[0] == "call":
+            callee = got[1]
+            if callee in LOSSY_CALLS:
+                return "lossy", "calls %s in %s" % (callee.split("::")[-1], fid.split("::")[-1])
+            if callee.startswith(FAMILY):
+                cb = F.bodies.get(callee)
+                # a helper over Values is walked with the same kinds; a scalar helper (i64 / f64 parameters) is scanned as a whole
+                if cb is not None and cb.argc >= 2 and "core_types::Value" in cb.local_ty(1):
+                    return walk(callee, la, ra, depth - 1)
+                if cb is not None:
+                    c2 = int_to_float_casts(cb, range(len(cb.blocks)))
+                    inner = [x.name for x in cb.calls() if x.name.startswith(FAMILY)]
+                    for x in inner:
+                        xb = F.bodies.get(x)
+                        if xb is not None:
+                            c2 += int_to_float_casts(xb, range(len(xb.blocks)))
+                    if c2:
+                        return "lossy", "`as f64` of an integer in %s (%s)" % (callee.split("::")[-1], c2[0])
+                    return "exact", "scalar helper %s has no int->float conversion" % callee.split("::")[-1]
+            if "core::cmp::" in callee and ("for i64" in callee or "i64 as" in callee):
+                return "exact", "exact i64 comparison"
+            return "exact", "first call %s, no conversion before it" % callee.split("::")[-1]
+        return "exact", "decided inline without conversion"
+
+    n7 = 0
+    for fid in (E + "evaluator_compare::compare_values", E + "evaluator_compare::order_compare_non_null", E + "evaluator_equality::cypher_equals"):
+        ctx.body(fid)
+        for la, ra in (("Int", "Int"), ("Int", "Float"), ("Float", "Int")):
+            n7 += 1
+            verdict, why = walk(fid, la, ra)
+            ctx.instance("C23.7", "%s (%s, %s): %s — %s" % (fid.split("::")[-1], la, ra, verdict, why))
+            ctx.oblige(verdict == "exact", "C23.7", "%s:(%s,%s)" % (fid.split("::")[-1], la, ra),
+                       "%s compares (%s, %s) through a float conversion (%s): integers above 2^53 that round to the same f64 compare as equal, so "
+                       "`>` disagrees with `>=` / `=` and equality with a float is not transitive" % (fid.split("::")[-1], la, ra, why), F.bodies[fid].file)
+    ctx.floor("C23.7", "entry point x kind pairs", n7, 9)
